@@ -17,10 +17,9 @@ ALLOW_PREFIX = (
     "core::iter::", "core::slice::<impl [T]>::iter", "core::slice::iter::", "core::cmp::", "core::fmt::", "alloc::fmt::",
     "alloc::string::", "alloc::borrow::", "core::clone::", "core::ops::try_trait::", "core::ops::deref::", "core::ops::arith::",
     "core::convert::", "core::hint::must_use", "core::bool::<impl bool>::then", "core::intrinsics::discriminant_value",
-    "core::option::Option::<T>::is_some", "core::option::Option::<T>::is_none", "core::option::Option::<T>::map",
-    "core::option::Option::<T>::unwrap_or", "core::option::Option::<T>::ok_or", "core::option::Option::<T>::and_then",
-    "core::option::Option::<T>::filter", "core::option::Option::<T>::or", "core::option::Option::<T>::as_ref",
-    "core::result::Result::<T, E>::map", "core::result::Result::<T, E>::ok", "core::ops::function::", "core::marker::",
+    # Option / Result combinators: total; the panicking members (unwrap, expect, unwrap_err, expect_err) are
+    # caught by the panic vocabulary before this list is consulted
+    "core::option::Option::<", "core::result::Result::<", "core::ops::function::", "core::marker::",
     "core::str::<impl str>::is_empty", "core::str::<impl str>::len", "core::default::",
     # inherent float methods never panic (clamp, which asserts min <= max, is excluded below)
     "core::f64::<impl f64>::", "core::f32::<impl f32>::", "std::f64::<impl f64>::", "std::f32::<impl f32>::",
